@@ -35,17 +35,35 @@ Decision(o, ds) ==
    ELSE IF o.st \in {"ABSENT", "WAITING"}         THEN "PENDING"
    ELSE "ASSERT"
 (* status of the task afterwards *)
-NewStatus(o, ds) == LET d == Decision(o, ds) IN
-                    IF d \in {"WAITING", "SKIPPED", "PENDING"} THEN d
-                    ELSE IF d = "ASSERT" THEN o.st
-                    ELSE o.st     \* DROP: entry untouched
+StatusAfter(o, d) == IF d \in {"WAITING", "SKIPPED", "PENDING"} THEN d ELSE o.st    \* DROP, ASSERT: entry untouched
+NewStatus(o, ds) == StatusAfter(o, Decision(o, ds))
+
+(* Decision is what the code does today, and what Sched and Runs use.  What C01, C02 and C04 REQUIRE of one decision is
+   less: the set of acceptable decisions.
+   - A task with a FAILED / SKIPPED hard dependency may be skipped at once or only when every dependency is final
+     (the statements speak of what is executed and of the final map, not of when a doomed task is marked).
+   - Own entries FAILED / SKIPPED / PENDING are never met by a scheduling pass the properties quantify over (C02: empty
+     environment; C04: only DONE entries are carried over): nothing is required there ("ASSERT" = any exception). *)
+FreeOwn(o)     == o.st \in {"FAILED", "SKIPPED", "PENDING"}
+BadHardOf(ds)  == \E i \in DOMAIN ds : ds[i].hard /\ ds[i].st \in {"FAILED", "SKIPPED"}
+SomeBlocking(ds) == \E i \in DOMAIN ds : Blocking(ds[i])
+Decisions == {"WAITING", "SKIPPED", "PENDING", "DROP", "ASSERT"}
+Allowed(o, ds) ==
+   IF FreeOwn(o) THEN Decisions
+   ELSE IF BadHardOf(ds) THEN {"SKIPPED"} \cup (IF SomeBlocking(ds) THEN {"WAITING"} ELSE {})
+   ELSE IF SomeBlocking(ds) THEN {"WAITING"}
+   ELSE {Decision(o, ds)}
+(* an observed <<decision, status afterwards>> is acceptable *)
+Accepts(o, ds, obs) == /\ obs.decision \in Allowed(o, ds)
+                       /\ (FreeOwn(o) \/ obs.status = StatusAfter(o, obs.decision))
 
 Init == /\ own \in OwnRec
         /\ \E n \in 0 .. MaxDeps : deps \in [1 .. n -> DepRec]
         /\ Sane(own, deps)
-        /\ out = [decision |-> "", status |-> ""] /\ pc = "todo"
+        /\ out = [decision |-> "", status |-> "", allowed |-> {}, free |-> FALSE] /\ pc = "todo"
 Eval == /\ pc = "todo" /\ pc' = "done"
-        /\ out' = [decision |-> Decision(own, deps), status |-> NewStatus(own, deps)]
+        /\ out' = [decision |-> Decision(own, deps), status |-> NewStatus(own, deps),
+                   allowed |-> Allowed(own, deps), free |-> FreeOwn(own)]
         /\ UNCHANGED <<own, deps>>
 Spec == Init /\ [][Eval]_vars
 
@@ -54,15 +72,22 @@ AllFinal  == \A i \in DOMAIN deps : deps[i].st \in Final
 BadHard   == \E i \in DOMAIN deps : deps[i].hard /\ deps[i].st \in {"FAILED", "SKIPPED"}
 Newer     == \E i \in DOMAIN deps : deps[i].e # -1 /\ (own.s = -1 \/ deps[i].e > own.s)
 
-(* declarative reading *)
-ReleaseOnlyWhenAllFinal == Evaluated /\ out.decision \in {"PENDING", "DROP", "SKIPPED"} => AllFinal
-WaitIffNotFinal         == Evaluated => (out.decision = "WAITING" <=> ~AllFinal)
-SkipIffBadHard          == Evaluated /\ AllFinal => (out.decision = "SKIPPED" <=> BadHard)
-NeverRunWithBadHard     == Evaluated /\ out.decision \in {"PENDING", "DROP"} => ~BadHard
-DropOnlyIfDoneAndFresh  == Evaluated /\ out.decision = "DROP" => own.st = "DONE" /\ ~Newer
-DoneAndFreshIsDropped   == Evaluated /\ AllFinal /\ ~BadHard /\ own.st = "DONE" /\ ~Newer => out.decision = "DROP"
-StatusFollows           == Evaluated => out.status = (IF out.decision \in {"WAITING", "SKIPPED", "PENDING"} THEN out.decision ELSE own.st)
+(* declarative reading, over every acceptable decision d of a constrained input *)
+Constrained == Evaluated /\ ~FreeOwn(own)
+ReferenceAllowed        == Evaluated => out.decision \in out.allowed
+SomethingAllowed        == Evaluated => out.allowed # {}
+ReleaseOnlyWhenAllFinal == Constrained => \A d \in out.allowed : d \in {"PENDING", "DROP"} => AllFinal
+WaitOnlyIfNotFinal      == Constrained => \A d \in out.allowed : d = "WAITING" => ~AllFinal
+NoWaitWhenAllFinal      == Constrained /\ AllFinal => "WAITING" \notin out.allowed
+SkipIffBadHard          == Constrained => \A d \in out.allowed : d = "SKIPPED" => BadHard
+SkipWhenFinalAndBadHard == Constrained /\ AllFinal /\ BadHard => out.allowed = {"SKIPPED"}
+NeverRunWithBadHard     == Constrained => \A d \in out.allowed : d \in {"PENDING", "DROP"} => ~BadHard
+DropOnlyIfDoneAndFresh  == Constrained => \A d \in out.allowed : d = "DROP" => own.st = "DONE" /\ ~Newer
+DoneAndFreshIsDropped   == Constrained /\ AllFinal /\ ~BadHard /\ own.st = "DONE" /\ ~Newer => out.allowed = {"DROP"}
+NoAssertWhenConstrained == Constrained => "ASSERT" \notin out.allowed
+StatusFollows           == Evaluated => out.status = StatusAfter(own, out.decision)
 
+W_EarlySkip == ~(Evaluated /\ out.allowed = {"SKIPPED", "WAITING"})
 W_Drop    == ~(Evaluated /\ out.decision = "DROP" /\ Cardinality(DOMAIN deps) = 2)
 W_Stale   == ~(Evaluated /\ own.st = "DONE" /\ out.decision = "PENDING")
 W_NoClock == ~(Evaluated /\ out.decision = "PENDING" /\ own.st = "DONE" /\ \E i \in DOMAIN deps : deps[i].e = -1)
